@@ -25,7 +25,7 @@ TRUSTED = ["CPython: tokenizer/ast/asttokens (formula and statement text), pickl
            "(modelled by Serial/ZipFS.v only as path -> content maps)",
            "harness: describe() in harness/drivers/serial.py (public API walk) and the ast -> statement abstraction in "
            "harness/c04codec.py"]
-ASSUMPTIONS = ["models are built from the generated vocabulary; triggers of recorded defects D24 D33 D34 D36 D37 are avoided (D1 D8 D9 D35 repaired in /repo and generated)",
+ASSUMPTIONS = ["models are built from the generated vocabulary; triggers of recorded defects D24 D33 D36 are avoided (D1 D8 D9 D34 D35 D37 repaired in /repo and generated)",
                "IOSpec-backed references (pandas/Excel files) are not generated (C18)"]
 
 
@@ -294,7 +294,7 @@ def suite_serial(tier, rng, out, shared):
                                   "chains": sum(1 for c in cases if c.get("chain")),
                                   "defect_triggers_avoided": dict(filt),
                                   "ops_per_case": round(sum(len(c["ops"]) for c in cases) / max(1, len(cases)), 1)}
-    out.notes.append("serial: generator avoids the triggers of D24 D33 D34 D36 D37 (counts in distribution.serial."
+    out.notes.append("serial: generator avoids the triggers of D24 D33 D36 (D37 counted only; counts in distribution.serial."
                      "defect_triggers_avoided); %d generated cases skipped because an edit was rejected while building" % nrej)
 
 
